@@ -33,6 +33,11 @@ pub enum Tok {
     /// the canonical id of a local asset was taken by a token deployed from a hub message *before* the asset was ever
     /// registered; the request names the asset: the id is registered, and what is registered under it is what gets announced
     CanonicalIdTakenByRemoteDeployment,
+    /// harness token registered as canonical whose metadata getters start answering differently after their n-th read
+    /// (n = k % 4 + 1, counted from the studied request on); what they answer then: k / 4 % 3 = 0 an empty name and
+    /// symbol, 1 other valid metadata, 2 decimals 300. "The token's actual metadata" is then ambiguous, but whatever is
+    /// announced must be what the token answered and must be representable
+    Fickle(u8),
     /// never registered
     UnregisteredSalt,
     UnregisteredAsset,
@@ -124,6 +129,7 @@ fn tok() -> impl Strategy<Value = Tok> {
         7 => (0u8..20).prop_map(Tok::ItsDeployed),
         3 => Just(Tok::Asset),
         8 => (0u8..16).prop_map(Tok::Probe),
+        2 => (0u8..12).prop_map(Tok::Fickle),
         1 => Just(Tok::ItsDeployedViaCanonical),
         1 => Just(Tok::UnregisteredSalt),
         1 => Just(Tok::UnregisteredAsset),
@@ -185,6 +191,7 @@ impl Property for C18 {
         // token set-up
         let mut token_addr: Option<Address> = None;
         let mut meta: Option<(Vec<u8>, Vec<u8>, u32)> = None;
+        let mut fickle: Option<(Vec<u8>, Vec<u8>, u32)> = None;
         let mut representable = true;
         let mut registered = true;
         let canonical_entry;
@@ -247,6 +254,22 @@ impl Property for C18 {
                 meta = Some((n, s, d));
                 token_addr = Some(a);
                 canonical_entry = true;
+            }
+            Tok::Fickle(k) => {
+                let a = env.register(MetaToken, (sstr(env, "First Answer"), sstr(env, "FST"), 7u32));
+                env.mock_all_auths();
+                w.its.client.register_canonical_token(&a);
+                let (n2, s2, d2): (&str, &str, u32) = match k / 4 % 3 {
+                    0 => ("", "", 7),
+                    1 => ("Second Answer", "SND", 9),
+                    _ => ("First Answer", "FST", 300),
+                };
+                crate::probes::MetaTokenClient::new(env, &a).make_fickle(&(k as u32 % 4 + 1), &sstr(env, n2), &sstr(env, s2), &d2);
+                fickle = Some((n2.as_bytes().to_vec(), s2.as_bytes().to_vec(), d2));
+                meta = Some((b"First Answer".to_vec(), b"FST".to_vec(), 7));
+                token_addr = Some(a);
+                canonical_entry = true;
+                cx.label("token_whose_metadata_answers_change_between_reads");
             }
             Tok::UnregisteredSalt => {
                 registered = false;
@@ -347,7 +370,7 @@ impl Property for C18 {
         }
         // the same token may have been announced before (to the same or another chain), by whoever may rightfully request
         // it; every request is a request of its own: checked, paid for and announced
-        if case.announced_before % 4 != 0 {
+        if case.announced_before % 4 != 0 && fickle.is_none() {
             env.mock_all_auths_allowing_non_root_auth();
             for (bit, name) in [(1u8, "ethereum"), (2u8, "Polygon-zkEVM")] {
                 if case.announced_before & bit == 0 {
@@ -390,6 +413,54 @@ impl Property for C18 {
             w.its.client.try_deploy_remote_interchain_token(&caller, &BytesN::from_array(env, &salt), &sstr(env, dest_name), &gas_token)
         };
         let ok = matches!(r, Ok(Ok(_)));
+        if let Some((n2, s2, d2)) = &fickle {
+            // which of its answers is "the token's actual metadata" is not decided; an accepted request must still have met
+            // every other condition, and what it announces must be answers the token gave, and representable
+            cx.count("either");
+            if !ok {
+                ensure_p!(snapshot(env) == snap0 && events_len(env) == ev0, "refused remote deployment changed state");
+                return Ok(());
+            }
+            ensure_p!(
+                registered && dest_trusted && case.authorised && gas_amount >= 0 && gas_amount <= BAL,
+                "remote deployment succeeded although registered={} destination_trusted={} authorised={} gas {}",
+                registered,
+                dest_trusted,
+                case.authorised,
+                gas_amount
+            );
+            let evs = events_since(env, ev0);
+            let called: Vec<_> = evs.iter().filter(|e| e.0 == w.gw.id).collect();
+            ensure_p!(called.len() == 1, "expected exactly one gateway event, got {}", called.len());
+            let got_payload = match &called[0].2 {
+                ScVal::Bytes(b) => b.to_vec(),
+                other => return Err(format!("contract_called data is not bytes: {:?}", other)),
+            };
+            ensure_p!(called[0].1.last() == Some(&scv(env, BytesN::from_array(env, &keccak256(&got_payload)))), "announced payload hash is not the hash of the announced payload");
+            let (n1, s1, d1) = meta.clone().unwrap();
+            let want_id = oracle_canonical_token_id("stellar", &addr_sv(token_addr.as_ref().unwrap()));
+            match crate::oracle::decode_hub_canonical(&got_payload) {
+                Some((AHub::Send { chain, .. }, AMsg::Deploy { token_id, name, symbol, decimals, minter })) => {
+                    ensure_p!(chain == dest_name.as_bytes() && token_id == want_id && minter.is_empty(), "announcement names another chain / id, or carries a minter");
+                    ensure_p!(
+                        !name.is_empty() && !symbol.is_empty(),
+                        "a deploy message with an empty name or symbol ({:?} / {:?}) was announced for a token that answered so on a later read: what is announced must be representable",
+                        String::from_utf8_lossy(&name),
+                        String::from_utf8_lossy(&symbol)
+                    );
+                    ensure_p!((name == n1 || name == *n2) && (symbol == s1 || symbol == *s2), "announced name / symbol is not an answer the token gave");
+                    ensure_p!(
+                        decimals == word_u64(d1 as u64) || (*d2 <= 255 && decimals == word_u64(*d2 as u64)),
+                        "announced decimals {:?} are not an answer the token gave (it answered {} and {}): more than 255 decimals cannot be represented and must not be cut down",
+                        &decimals[24..],
+                        d1,
+                        d2
+                    );
+                }
+                _ => return Err("announced payload is not a canonical SendToHub-wrapped deploy message".to_string()),
+            }
+            return Ok(());
+        }
         if zero_gas_undecided {
             cx.count("either");
         }
